@@ -41,6 +41,15 @@ def run(ctx):
                                   "replay_wall_s": round(out["elapsed_s"], 1)}
         for s in out["samples"][:2]:
             ctx.sample(s)
+    # the PAM module's encoder against the Go encoder (same fields, every pair of boundary lengths)
+    import pamfam
+    pres = ctx.run_tlc("MC_PamClient.tla", "MC_PamClient_code.cfg", workers=1, timeout=300)
+    ctx.tlc_must_pass(pres, "MC_PamClient_code.cfg")
+    edge = next(e for e in pres["edges"] if e["script"]["reply"]["id"] == "NO" and e["script"]["delay"] == "none"
+                and e["script"]["after"] == "close" and not e["script"]["staleErrno"] and e["script"]["reachable"]
+                and e["script"]["cut"] >= 4)
+    cov["pam_encoder_pairs"] = pamfam.encoder_grid(ctx, exe, edge)
+    cov["evaluations"] += cov["pam_encoder_pairs"]
     cov["distinct_nontrivial"] = cov["traces_validated_against_impl"]
     cov["exhaustive"] = True
     cov["rule"] = ("TLC explores every delivery schedule of every stream of the bounded set (fragment independence on the scaled "
@@ -48,4 +57,4 @@ def run(ctx):
                    "and decoded under single/1-byte/2-way/random/zero-length/EOF-with-data read schedules")
     ctx.assumptions += ["bufio.Scanner (standard library) is trusted to call the split function as documented",
                         "byte fidelity inside a field is covered by the concretised replays (random contents), not by TLC",
-                        "the PAM module's encoder is compared with the Go encoder in check C20"]
+                        "the PAM module is compiled against stub libpam headers; its request bytes are recorded by a scripted unix-socket server"]
